@@ -91,6 +91,9 @@ struct derived_promise : promise<T> {
     static void do_resolve(future<T> *f) { promise<T>::resolve(f); }
 };
 
+static int g_bind_end = 0;   // 0 none, 1 call, 2 move+call, 3 drop (see Scn::bind_end)
+static int g_bind_val = 0;
+
 template <typename T>
 struct Scn {
     using FT = future<T>;
@@ -306,6 +309,36 @@ struct Scn {
         }
     }
 
+    // `bind-end <call|move|drop> <v>`: the controller ends the promise's life through promise::bind(): the promise moves into the
+    // returned function object; `call` invokes it (a resolver call sequenced after all others), `move` moves the function object
+    // first and invokes the new one (the moved-from one and a second call must lose), `drop` destroys it uncalled (= ~promise)
+    void bind_end(int nthreads) {
+        if constexpr (std::is_reference_v<T> || std::is_same_v<T, thrower>) {
+            (void)nthreads;
+        } else {
+            auto fn = [&] {
+                if constexpr (std::is_void_v<T>) return prom->bind();
+                else if constexpr (std::is_same_v<T, vec>) return prom->bind(2, g_bind_val);
+                else return prom->bind(P<T>::make(g_bind_val));
+            }();
+            if (prom->get_id() != nullptr || static_cast<bool>(*prom)) anomaly("bind() left the promise non-empty");
+            if (g_bind_end == 1) {
+                bool r = false;
+                { auto sp = fn(); r = sp; }
+                log("ret t" + std::to_string(nthreads) + " " + (r ? "1" : "0"));
+                { auto sp = fn(); if (sp) anomaly("second call of a bound function resolved again"); }
+            } else if (g_bind_end == 2) {
+                auto fn2 = std::move(fn);
+                bool r = false;
+                { auto sp = fn2(); r = sp; }
+                log("ret t" + std::to_string(nthreads) + " " + (r ? "1" : "0"));
+                { auto sp = fn(); if (sp) anomaly("moved-from bound function resolved"); }
+                { auto sp = fn2(); if (sp) anomaly("second call of a bound function resolved again"); }
+            }
+            // `drop`: fn is destroyed here without a call
+        }
+    }
+
     bool assign_end = false;   // the controller overwrites the promise by move-assignment instead of destroying it
     int assign_from_val = -1;  // >= 0: the controller move-assigns the promise_with_default into a fresh one with this default
     int anomalies = 0;
@@ -349,6 +382,7 @@ struct Scn {
             _exit(0);
         }
         if (destroy_promise) {
+            if (g_bind_end && prom && pwd_kind.empty() && !assign_end && assign_from_val < 0) bind_end((int)threads.size());
             // move-assignment over a promise that may still own the future must drop that future first
             if (assign_end && prom) {
                 bool done = false;
@@ -405,6 +439,7 @@ struct Scn {
 };
 
 static void run_case(const std::vector<std::string> &hdr, const std::vector<std::vector<std::string>> &lines) {
+    g_bind_end = 0;
     std::vector<std::vector<std::string>> threads;
     std::vector<int> sched;
     bool destroy = true;
@@ -414,6 +449,7 @@ static void run_case(const std::vector<std::string> &hdr, const std::vector<std:
     int pwd_val = 0;
     for (auto &w : lines) {
         if (w[0] == "assign-end") assign_end = true;
+        if (w[0] == "bind-end" && w.size() > 2) { g_bind_end = w[1] == "call" ? 1 : w[1] == "move" ? 2 : 3; g_bind_val = atoi(w[2].c_str()); }
         if (w[0] == "assign-from" && w.size() > 1) assign_from = atoi(w[1].c_str());
         if (w[0] == "pwd" && w.size() > 2) { pwd_kind = w[1]; pwd_val = atoi(w[2].c_str()); }
         if (w[0] == "r" || w[0] == "w" || w[0] == "d") threads.push_back(w);
